@@ -108,7 +108,7 @@ def extracted_timer_run(repo):
 
 class C19(Prop):
     id = "C19"
-    props_file = ["Props/C19.v", "Props/C19_Bridge.v", "Props/C19_BridgeRun.v"]
+    props_file = ["Props/C19.v", "Props/C19_Bridge.v", "Props/C19_BridgeRun.v", "Props/C19_Examples.v"]
     coq_imports = ["From ONL Require Import Base.Cmp Elem.Timer."]
     n_quick = 600
     n_thorough = 12000
